@@ -272,14 +272,13 @@ def _cond_rtol(f, extra):
     Matheron (d^2) and Cressie (|d|^(1/2), mean, ^4) both amplify this by 2.
     Exactly equal values stay exactly equal under the affine maps used.
     """
+    # smallest non-zero difference over *all* pairs of values (a superset of the pairs any estimator forms:
+    # rows of a stack, but columns of a grid for the axis estimator), hence a conservative conditioning
     dmin = math.inf
-    for row in np.atleast_2d(f):
-        v = row[~np.isnan(row)]
-        if v.size > 1:
-            d = np.abs(v[:, None] - v[None, :])
-            d = d[d > 0]
-            if d.size:
-                dmin = min(dmin, float(d.min()))
+    allv = np.asarray(f, dtype=float).ravel()
+    v = np.unique(allv[~np.isnan(allv)])
+    if v.size > 1:
+        dmin = float(np.min(np.diff(v)))
     if not math.isfinite(dmin):
         return RT
     return RT + 16 * EPS * extra / dmin
